@@ -47,3 +47,12 @@ def sylvester(w, S, ldS, Sx, ldSx, M, LxMLM):
     val = ldS[:, None] + ldSx[None] + w.logdet(LxMLM)
     w.ld_rule(Sy, val, "GtvLemmas.det_add_mul_mul_transpose")
     return Sy, val
+
+
+def principal_submatrix_logdet(w, S_sub, ldS, L_comp):
+    """GtvLemmas.det_principal_submatrix:  Σ symmetric invertible with inverse Λ, index set split a ⊎ c:
+           ln det Σ[a,a] = ln det Σ + ln det Λ[c,c]
+    S_sub = Σ[a,a] [R,Da,Da]; ldS [R]; L_comp = Λ[c,c] [R,Dc,Dc]"""
+    val = ldS + w.logdet(L_comp)
+    w.ld_rule(S_sub, val, "GtvLemmas.det_principal_submatrix")
+    return val
